@@ -138,12 +138,20 @@ def judge_sim(m, N, x, alpha, tails, reps, quantile, seed):
     return out, k
 
 
+class _Name(str):
+    """a candidate name as a parser delivers it: equal to, but not the same object as, the name used elsewhere"""
+
+
+def _copy_of(name):
+    return _Name(name)
+
+
 def comparison_contest(N, k_win, audit_type, m, risk, share=None):
     """N cards, k_win vote A, the rest vote B; margin = (2 k_win - N)/N (plurality; super-majority if a share is given)"""
     cvrs = [CVR(id=f"c{i}", votes={"con": {"A": True} if i < k_win else {"B": True}}, sample_num=i + 1) for i in range(N)]
     con = Contest.from_dict({"id": "con", "name": "con", "risk_limit": risk, "cards": N,
                              "choice_function": Contest.SOCIAL_CHOICE_FUNCTION.SUPERMAJORITY if share else Contest.SOCIAL_CHOICE_FUNCTION.PLURALITY, "share_to_win": share,
-                             "n_winners": 1, "candidates": ["A", "B"], "winner": ["A"], "audit_type": audit_type, "test": s1.TESTS[m[0]],
+                             "n_winners": 1, "candidates": ["A", "B"], "winner": [_copy_of("A")], "audit_type": audit_type, "test": s1.TESTS[m[0]],
                              "estim": s1.ESTIMS[m[1]], "bet": s1.BETS[m[2]], "test_kwargs": {k: float(F(v)) if isinstance(v, str) else v for k, v in m[3].items()},
                              "g": 0.1, "use_style": True, "tally": {"A": k_win, "B": N - k_win}, "sample_size": None, "sample_threshold": None})
     cons = {"con": con}
